@@ -8,9 +8,9 @@ import z3
 from pyvc.runner import Check, source
 from pyvc.shapes import Shape
 from pyvc.run import verify_contract
-from pyvc.values import SymObj, Opaque, Ref, Choice
+from pyvc.values import SymObj, Opaque, Ref, Choice, PyvcUnsupported
 
-EXTRA = ['spec.composition', 'contracts.c05']
+EXTRA = ['spec.composition', 'contracts.c05', 'contracts.c05inf']
 
 
 def domain(tier, name):
@@ -30,7 +30,7 @@ def domain(tier, name):
         full = [(1, 0), (1, 1), (2, 0), (0, 0)]
         quick = [(1, 0), (1, 1), (0, 0)]
     else:
-        full = [(h, b) for h in range(0, 8) for b in range(0, 6) if h + b <= 7] + [(3, 5)]
+        full = [(h, b) for h in range(0, 8) for b in range(0, 6) if h + b <= 7]
         quick = [(2, 5), (2, 3), (7, 0), (5, 0), (2, 2), (1, 5)] if name == 'StandardHighHand' else [(2, 5), (5, 0), (3, 1)]
     return full if tier == 'thorough' else quick
 
@@ -94,6 +94,116 @@ def vc_task(task):
                           timeout_ms=task['timeout_ms'], unwind=128, tag=f'{name}-h{h}b{b}' + ('-lazy' if lazy else ''),
                           keep_smt=1 if (name, h, b, lazy) == ('OmahaHoldemHand', 2, 3, False) else 0)
     return res
+
+
+def inf_task(task):
+    """unbounded mode (contracts/c05inf.py): one level of the real from_game chain for one hand class, the loop cut by its
+    invariant, the next level replaced by its contract; validity and strength of a candidate are uninterpreted functions"""
+    src = source(EXTRA)
+    if 'functools' not in src.modules:
+        src.load('functools')
+    import itertools
+    import contracts.c05inf as cinf
+    import pokerkit.hands as H
+    import pokerkit.lookups as L
+    from pyvc import streams, models
+    from pyvc.cascade import assume_clause
+    from pyvc.harness import FunctionVC
+    from pyvc.vc import discharge, smt2_of
+    from pyvc.run import expected
+    import time
+    import traceback
+    t0 = time.time()
+    level, name = task['level'], task['cls']
+    K = cinf.LEVELS[level]
+    cls = getattr(H, name)
+    I_ = z3.IntSort()
+    OK = z3.Function('hand.valid', I_, z3.BoolSort())
+    STR = z3.Function('hand.strength', I_, I_)
+    out = {'function': K.target, 'contract': f'{K.__module__}.{K.__qualname__}', 'shape': {'class': name, 'cards': 'unbounded'},
+           'chips': 'int', 'results': [], 'error': None, 'notes': []}
+
+    def init_cut(I, ctx, fn, args, kwargs, node):
+        self_ref, cards = args[0], args[1]
+        if not streams.is_atom(cards):
+            raise PyvcUnsupported('Hand() of something that is not an abstract candidate')
+        I.raise_if(ctx, z3.Not(OK(cards)), ValueError, 'invalid-hand@' + I.where(node))
+        if ctx.dead:
+            return None
+        ctx.put(self_ref, ctx.get(self_ref).with_field('_Hand__cards', cards))
+        return None
+
+    def entry_cut(I, ctx, fn, args, kwargs, node):
+        obj = ctx.get(args[0]) if isinstance(args[0], Ref) else args[0].heap[args[0].ref.cell]
+        return SymObj(L.Entry, {'index': STR(obj.fields['_Hand__cards']), 'label': Opaque('label')})
+
+    def clean_cut(I, ctx, fn, args, kwargs, node):
+        v = args[-1]
+        if not (streams.is_atom(v) or isinstance(v, streams.AbsSeq)):
+            raise PyvcUnsupported('Card.clean of a concrete value in stream mode')
+        return v
+    cuts = {'pokerkit.hands.Hand.__init__': init_cut, 'pokerkit.hands.Hand.entry': entry_cut, 'pokerkit.utilities.Card.clean': clean_cut}
+    try:
+        vc = FunctionVC(src, K, Shape(n=2, S=1, T=1, B=1, H=1), cuts=cuts, unwind=8, with_state=False,
+                        arg_makers={'cls': lambda I, ctx, wf, shape: cls, 'hole_cards': lambda I, ctx, wf, shape: z3.Int('cards.hole'),
+                                    'board_cards': lambda I, ctx, wf, shape: z3.Int('cards.board')})
+        vc.shape.tag = f'{name}-unbounded'
+        vc.I.native_cuts = streams.native_cuts()
+        vc.I.axioms.extend(streams.AXIOMS)
+
+        def fresh_hand(I, ctx, tag):
+            return ctx.alloc('obj', SymObj(cls, {'_Hand__cards': streams.fresh_int('cards.' + tag)}))
+
+        def havoc(I, ctx, var, tag):
+            if var == 'max_hand':
+                none = z3.Bool(f'{tag}.max_hand?none!{next(streams._fresh)}')
+                return Choice(((none, None), (z3.Not(none), fresh_hand(I, ctx, tag + '.max_hand'))))
+            return Opaque(f'dead-{var}')
+        streams.install_for_cuts(vc, K.target, K.loop_invariants, havoc)
+        callee = getattr(K, 'callee', None)
+        if callee:
+            K2 = cinf.LEVELS[callee]
+
+            def callee_cut(I, ctx, fn, args, kwargs, node):
+                b = {'cls': args[0], 'hole_cards': args[1], 'board_cards': args[2] if len(args) > 2 else kwargs.get('board_cards', ())}
+                saved = vc.ccls
+                vc.ccls = K2
+                try:
+                    t, sub, defs = vc.eval_clause(K2.raises[ValueError], ctx, b)
+                    I.raise_if(ctx, t, ValueError, f'contract-of-{callee}@' + I.where(node))
+                    if ctx.dead:
+                        return None
+                    r = fresh_hand(I, ctx, 'result-of-' + callee)
+                    b['r'] = r
+                    for cname, f in K2.clauses:
+                        assume_clause(vc, ctx, cname, b)
+                finally:
+                    vc.ccls = saved
+                return r
+            vc.I.cuts[K2.target] = callee_cut
+        obs = vc.build()
+    except PyvcUnsupported as e:
+        out['error'] = f'unsupported: {e}'
+        return out
+    except Exception:   # noqa
+        out['error'] = 'crash: ' + traceback.format_exc()
+        return out
+    out['build_s'] = round(time.time() - t0, 3)
+    out['notes'] = vc.notes
+    for ob in obs:
+        ob.label = 'D∞'
+        r = discharge(ob, task['timeout_ms'])
+        rec = {'id': ob.id, 'kind': ob.kind, 'prop': ob.prop, 'label': ob.label, 'status': r['status'], 'backend': r['backend'],
+               'seconds': r['seconds'], 'meta': ob.meta, 'ok': r['status'] == expected(ob.kind)}
+        if r['status'] == 'refuted' and ob.kind != 'canary' and r['model'] is not None:
+            rec['model'] = {'function': K.target, 'args': {'cls': {'$class': f'pokerkit.hands.{name}'}}, 'abstract': True,
+                            'note': 'counter-model over uninterpreted streams: ' + str(r['model'])[:1500]}
+        if task.get('keep_smt') and ob.kind == 'P' and not any('smt2' in x for x in out['results']):
+            txt = smt2_of(ob.negation())
+            rec['smt2'] = txt if len(txt) < 8000 else txt[:8000] + '\n; ... truncated'
+        out['results'].append(rec)
+    out['total_s'] = round(time.time() - t0, 3)
+    return out
 
 
 def monotone_task(task):
@@ -178,8 +288,20 @@ def main(argv=None):
                     tasks.append({'module': 'props.c05', 'fn': 'vc_task', 'name': f'{name}/h{h}b{b}' + ('/lazy' if lazy else '') + ('/or_none' if or_none else ''),
                                   'cls': name, 'h': h, 'b': b, 'lazy': lazy, 'or_none': or_none,
                                   'timeout_ms': 120000 if chk.tier == 'thorough' else 30000, 'weight': (h + b) ** 2})
+    import contracts.c05inf as cinf
+    for level, names in cinf.CLASSES.items():
+        for name in names:
+            if only and name not in only:
+                continue
+            tasks.append({'module': 'props.c05', 'fn': 'inf_task', 'name': f'{name}/unbounded', 'level': level, 'cls': name,
+                          'timeout_ms': 60000, 'weight': 1, 'keep_smt': name == 'OmahaHoldemHand'})
     chk.run_tasks(tasks)
     chk.assumptions += [
+        'unbounded mode (label D∞, contracts/c05inf.py): itertools.combinations / chain are uninterpreted stream constructors (equal arguments '
+        'give equal streams; length an arbitrary natural number); validity and strength of a candidate are uninterpreted functions of the '
+        'candidate; the three loops are cut by the invariant best_so_far and proved by induction on the candidates consumed; the callee '
+        'super().from_game is replaced by its contract of the same module (proved by its own task). What the streams contain is the '
+        'D/shape half',
         'cards are abstract pairwise distinct atoms; what a hand type accepts (valid) and how strong it is (entry index) are free symbols per '
         'card SET -- that the lookup key depends on the set only, and that indices order hands as the rules say, is C04',
         'itertools.combinations(xs, k) yields exactly the k-subsequences of xs by index in lexicographic order (executed by CPython on the '
